@@ -484,7 +484,21 @@ def run_workers(ctx, hists):
     return results
 
 
-def build_history_case(hist, real):
+def detect_variant():
+    """which DiskDict is installed: 'fix' if a truncated entry reads as a missing key
+    (proposed_fixes/C15_diskdict-torn-write.patch applied), else 'cur'"""
+    from cotengra.utils import DiskDict
+    with tempfile.TemporaryDirectory(prefix="c14v_") as d:
+        dd = DiskDict(d)
+        dd["k"] = {"x": 1}
+        open(os.path.join(d, "k"), "wb").close()
+        try:
+            return "cur" if "k" in DiskDict(d) else "fix"
+        except Exception:
+            return "cur"
+
+
+def build_history_case(hist, real, variant="cur"):
     """Coq terms for one history. returns dict with 'hist' (lhs, rhs), 'fp' cases, 'hit' cases"""
     sessions = hist["sessions"]
     pool = hist["pool"]
@@ -543,7 +557,7 @@ def build_history_case(hist, real):
             ns_base += recs[-1]["nsearch"]
         exp_sessions.append("[" + "; ".join(exp) + "]")
     dcon = "(mkCon [] 0%Z [])"
-    lhs = ("run_history (H_tab [%s]) (ops_cur (tab_encode [%s]) (tab_decode [%s]) 3) "
+    lhs = ("run_history (H_tab [%s]) (ops_" + variant + " (tab_encode [%s]) (tab_decode [%s]) 3) "
            "(fun i _ => nth i [%s] %s) %s fs0 0 [%s]") % (
         "; ".join(htab), "; ".join(ctab), "; ".join(ctab),
         "; ".join(con_lit(c, K) for c, _ in allcons), dcon, coq(bool(hist["dir"])), "; ".join(sess_lits))
@@ -555,6 +569,8 @@ def run(ctx):
     if not standard_proof_steps(ctx):
         return
     rng = ctx.rng
+    variant = detect_variant()
+    ctx.coverage["diskdict_variant"] = variant
     nh = ctx.n(110, 1200)
     hists = [gen_history(rng, ctx.quick) for _ in range(nh)]
     # the two collisions of hash_method='b' as fixed histories (known finding probe, always run)
@@ -683,7 +699,7 @@ def run(ctx):
             ctx.count("history_not_replayed_suboptimizer_failure")
             continue
         try:
-            bc = build_history_case(hist, real)
+            bc = build_history_case(hist, real, variant)
         except Exception as e:
             ctx.fail("could not express the observed history for the model: %r" % (e,), {"history": desc},
                      found_input=False)
